@@ -56,7 +56,7 @@ Inductive case :=
 | CAdd (st : store) (h : header) (code : rcode) (tip_after : N) (peers_after : list (N * list key))
        (indexed : bool)
 (** one signature.VerifyMultiSignature call *)
-| CVms (msg : N) (keys : list key) (m : Z) (sigs : list sig) (code : rcode)
+| CVms (msg : N) (keys : list bkey) (m : Z) (sigs : list sig) (code : rcode)
 (** the driver's classification of an input (finding classes, governing height) against the
     predicates the partial theorem uses *)
 | CClass (st : store) (h : header) (stale thr dup ow : bool) (gov : option N).
@@ -92,7 +92,8 @@ Definition case_ok (c : case) : bool :=
 Definition mismatches := mism case_ok.
 
 (** constructors used by the generated case files *)
-Definition mk_header (height prev time : N) (info : option blkinfo) (bks : list key) (sigs : list sig) (hash : N) : header :=
+Definition gk (l : list key) : list bkey := map BkKey l.   (* all genuine key objects *)
+Definition mk_header (height prev time : N) (info : option blkinfo) (bks : list bkey) (sigs : list sig) (hash : N) : header :=
   {| h_height := height; h_prev := prev; h_time := time; h_info := info; h_bks := bks; h_sigs := sigs; h_hash := hash |}.
 Definition mk_info (last : N) (cfg : option chaincfg) : blkinfo := {| bi_last := last; bi_newcfg := cfg |}.
 Definition mk_cfg (c : N) (peers : list key) : chaincfg := {| cc_c := c; cc_peers := peers |}.
